@@ -63,20 +63,20 @@ func init() {
 		d("invoke-ok", "decorated-arg", "group-nonempty", "cross-scope-arg", "invoke-on-cycle"),
 		"4 skeletons: (a) 2 ctors, Export, <=2 scopes (also created late), 2 Invokes; (b) 3 registrations incl. <=1 decorator, 2 Invokes; (c) 2 ctors with group results/params, 2 Invokes; (d) 3 registrations incl. a decorator with an extra dependency or a second key", "",
 		stubs, uf, "no missing dependencies; distinct single keys; no failing user functions")
-	reg("C03", d("verifC03a", "verifC03b"), nil,
+	reg("C03", d("verifC03a", "verifC03b", "verifC03c"), nil,
 		d(cnCall, invoke, provide, "go.uber.org/dig.Visualize", "(*go.uber.org/dig.Scope).String"),
 		d("invoke-ok", "bystander", "missing", "soft-group-arg", "optional-zero"),
-		"(a) 3 ctors <=1 param over <=2 scopes, String+Visualize after every registration, 1 Invoke; (b) 2 ctors with optional / group / soft group params, 1 Invoke", "",
+		"(a) 3 ctors <=1 param over <=2 scopes, String+Visualize after every registration, 1 Invoke; (b) 2 ctors with optional / group / soft group params, 1 Invoke; (c) group feeders and group/single decorators (two keys, extra dependency, no input) over <=2 scopes", "",
 		stubs, uf)
-	reg("C04", d("verifC04a", "verifC04b"), nil,
+	reg("C04", d("verifC04a", "verifC04b", "verifC04c"), nil,
 		d("go.uber.org/dig.findMissingDependencies", "go.uber.org/dig.shallowCheckDependencies", "go.uber.org/dig.newErrMissingTypes", "go.uber.org/dig.isFieldOptional", psBuild),
 		d("missing", "optional-zero", "optional-present", "invoke-ok"),
-		"(a) 2 ctors, <=2 scopes, optional fields; (b) chain of 3 ctors in one scope, every edge optional or required, 1 Invoke", "",
+		"(a) 2 ctors, <=2 scopes, optional fields; (b) chain of 3 ctors in one scope, every edge optional or required, 1 Invoke; (c) 2 ctors with Export over <=2 scopes", "",
 		stubs, uf)
-	reg("C05", d("verifC05u", "verifC05sa", "verifC05sb", "verifC05sc"), nil,
+	reg("C05", d("verifC05u", "verifC05sa", "verifC05sb", "verifC05sc", "verifC05sd"), nil,
 		d(isAcyclic, "go.uber.org/dig/internal/graph.isAcyclic", "(*go.uber.org/dig.graphHolder).EdgesFrom", provide, invoke, "(*go.uber.org/dig.graphHolder).Rollback"),
 		d("acyclic", "cyclic", "cycle-len>=3", "cycle-rejected", "cycle-deferred", "invoke-on-cycle"),
-		"unit: every digraph with n<=4 nodes (symbolic adjacency matrix); system: (sa) 2 ctors with 1 param/1 result of symbolic type, Export, <=2 scopes; (sb) same with DeferAcyclicVerification and 2 Invokes; (sc) group and optional edges, defer free", "",
+		"unit: every digraph with n<=4 nodes (symbolic adjacency matrix); system: (sa) 2 ctors with 1 param/1 result of symbolic type, Export, <=2 scopes; (sb) same with DeferAcyclicVerification and 2 Invokes; (sc) group and optional edges, defer free; (sd) 2 ctors over <=3 scopes of free shape (cycles visible only from a grandchild)", "",
 		stubs, uf, "exceeding 600 frames / 2e7 steps counts as non-termination and is replayed natively")
 	props["C05"].FuelIsViolation = true
 	reg("C06", d("verifC06a", "verifC06b"), nil,
@@ -89,40 +89,40 @@ func init() {
 		d("user-failure", "ctor-error", "panic-recovered", "panic-propagated", "retried", "decorated-arg"),
 		"(a) 2 ctors, each execution may succeed / return an error / panic, RecoverFromPanics free, 2 Invokes; (b) 2 registrations incl. <=1 decorator that may fail, 2 Invokes", "",
 		stubs, uf)
-	reg("C08", d("verifC08a"), nil,
+	reg("C08", d("verifC08a", "verifC08b"), nil,
 		d("(*go.uber.org/dig.Scope).Scope", "(*go.uber.org/dig.Scope).storesToRoot", provide, psBuild, "(*go.uber.org/dig.Scope).newGraphNode"),
 		d("cross-scope-arg", "missing", "invoke-ok", "bystander"),
-		"2 ctors with free scope and Export over <=3 scopes of free shape (created before or after the Provides), 1 Invoke from a free scope", "",
+		"(a) 2 ctors with free scope and Export over <=3 scopes of free shape (created before or after the Provides), 1 Invoke from a free scope; (b) 1 ctor, 2 Invokes, a second ctor (possibly for the same key, in another scope), a third Invoke", "",
 		stubs, uf)
-	reg("C09", d("verifC09a", "verifC09b"), nil,
+	reg("C09", d("verifC09a", "verifC09b", "verifC09c"), nil,
 		d("(go.uber.org/dig.connectionVisitor).checkKey", "go.uber.org/dig.newResultSingle", rsExtract, "go.uber.org/dig.newParamObjectField"),
 		d("duplicate-key", "invoke-ok", "missing"),
-		"(a) 2 ctors with <=2 results, names {\"\",a} via option or result-object tag; (b) As(vI0) / As(vI0,vI1) on concrete *vA results, groups, consumers asking *vA / vI0 / vI1", "",
+		"(a) 2 ctors with <=2 results, names {\"\",a} via option or result-object tag; (b) As(vI0) / As(vI0,vI1) on concrete *vA results, groups, consumers asking *vA / vI0 / vI1; (c) 2 single-result ctors with Export over <=2 scopes (duplicates through Export)", "",
 		stubs, uf)
-	reg("C10", d("verifC10a", "verifC10b"), nil,
+	reg("C10", d("verifC10a", "verifC10b", "verifC10c"), nil,
 		d(pgBuild, "(go.uber.org/dig.paramGroupedSlice).callGroupProviders", rgExtract, "go.uber.org/dig.parseGroupString", "(*go.uber.org/dig.Scope).getValueGroup"),
 		d("group-nonempty", "invoke-ok", "bystander"),
-		"(a) 2 feeders placed freely in <=2 scopes with Export, 1 consumer from a free scope; (b) flatten results of length 0-2, a feeder added between two requests", "",
+		"(a) 2 feeders placed freely in <=2 scopes with Export, 1 consumer from a free scope; (b) flatten results of length 0-2, a feeder added between two requests; (c) members provided As(vI0) / As(vI0,vI1), consumers of []*vA / []vI0 / []vI1, 2 Invokes", "",
 		stubs, uf, "group order is compared as a multiset")
-	reg("C11", d("verifC11a", "verifC11b"), nil,
+	reg("C11", d("verifC11a", "verifC11b", "verifC11c"), nil,
 		d(pgBuild, poBuild, "go.uber.org/dig.parseGroupString"),
 		d("soft-group-arg", "soft-group-nonempty", "invoke-ok"),
-		"(a) 1 ctor with <=2 results (group and single), consumer object with 2 fields in free order (soft group, hard dependency); (b) 2 feeders, 2 Invokes (the first may run feeders, the second consumes softly)", "",
+		"(a) 1 ctor with <=2 results (group and single), consumer object with 2 fields in free order (soft group, hard dependency); (b) 2 feeders, 2 Invokes (the first may run feeders, the second consumes softly); (c) consumer object with 3 fields (soft groups and hard dependencies in free order)", "",
 		stubs, uf)
-	reg("C12", d("verifC12a", "verifC01d", "verifC02d"), nil,
+	reg("C12", d("verifC12a", "verifC12b", "verifC12c"), nil,
 		d(dnCall, "(go.uber.org/dig.paramSingle).buildWithDecorators", decorate, "go.uber.org/dig.findResultKeys"),
-		d("decorated-arg", "invoke-ok", "provide-rejected"),
-		"2-3 registrations of which <=2 decorators at free levels of <=2 scopes, 2 Invokes from free scopes; decorators with an extra dependency or a second key", "",
+		d("decorated-arg", "invoke-ok", "provide-rejected", "decorated-group"),
+		"2-3 registrations of which <=2 decorators at free levels of <=2 scopes, 2 Invokes from free scopes; decorators with an extra dependency, a second key or no input; two decorators of one key at two levels resolved twice", "",
 		stubs, uf)
-	reg("C13", d("verifC13a", "verifC07a"), nil,
+	reg("C13", d("verifC13a", "verifC13b"), nil,
 		d("go.uber.org/dig.RootCause", "go.uber.org/dig.IsCycleDetected", invoke, cnCall, "(go.uber.org/dig.errConstructorFailed).Unwrap"),
 		d("invoked-fn-error", "ctor-error", "panic-recovered", "panic-propagated", "missing"),
-		"2 ctors + invoked function, each may fail by error or panic, param objects, <=2 scopes, RecoverFromPanics free", "",
+		"(a) 2 ctors + invoked function, each may fail by error or panic, param objects, <=2 scopes, RecoverFromPanics free; (b) Invoke, a registration, Invoke again (dig-originated failures that must not stick)", "",
 		stubs, uf)
 	reg("C14", d("verifC14a"), nil,
 		d(provide, decorate, invoke, "go.uber.org/dig.newParamObjectField", "go.uber.org/dig.newResultObjectField", "go.uber.org/dig.parseGroupString", "go.uber.org/dig.isFieldOptional", "(*go.uber.org/dig.provideOptions).Validate", "go.uber.org/dig.Visualize"),
 		d("input-accepted", "input-rejected"),
-		"one input from a grammar of 30 value/function shapes x 25 struct tags x 14 option sets, passed to Provide / Decorate / Invoke before or after 1 registration, then String, Visualize and 1 Invoke; twin container without the input", "",
+		"one input from a grammar of 30 value/function shapes x 25 struct tags x 6 field types x 14 option sets, passed to Provide / Decorate / Invoke before or after 1 registration, then String, Visualize and 1 Invoke; twin container without the input", "",
 		stubs, "types of the grammar are concrete (declared or reflect.StructOf/FuncOf)")
 	reg("C15", d("verifC15a", "verifC15b"), nil,
 		d("go.uber.org/dig.newParamObject", "go.uber.org/dig.newResultObject", "go.uber.org/dig.newParamList", poBuild, roExtract),
@@ -144,6 +144,11 @@ func init() {
 		d("provide-info", "decorate-info", "invoke-info", "info-optional", "info-group", "info-2outputs", "rejected-info-untouched"),
 		"one signature per call from the descriptor grammar: <=2 params (positional, object field, nested object field, names, optional, group, soft), <=2 results (positional/object, names, groups, flatten, As), variadic; FillProvideInfo / FillDecorateInfo / FillInvokeInfo; a rejected second call", "",
 		stubs, uf, "distinct-function => distinct-ID is not decided (IDs are code pointers fabricated by the engine)")
+	reg("C19", d("verifC19a", "verifC19b"), nil,
+		d("go.uber.org/dig.Visualize", "go.uber.org/dig.visualizeGraph", "go.uber.org/dig.visualizeCtor", "go.uber.org/dig.visualizeGroup", "(*go.uber.org/dig/internal/dot.Graph).AddCtor", "(*go.uber.org/dig/internal/dot.Graph).PruneSuccess", "go.uber.org/dig.CanVisualizeError"),
+		d("two-clusters", "group-node", "group-2members", "dashed-edge", "rejected-registration", "missing-type-picture", "ctor-failure-picture", "transitive-failure", "grandchild-cluster"),
+		"(a) 1-3 registrations drawn from a catalogue of 12 declared constructors (plain, named, optional, group feeders/consumers, failing) into root, a child or a grandchild scope, duplicates rejected; the DOT text is parsed and compared with the catalogue descriptors; (b) 1-2 registrations, then a failing Invoke (missing type or failing constructor / group feeder) and VisualizeError", "",
+		stubs, "concrete declared functions and types; the DOT text is produced by dig's code through the engine's fmt model (S3)", "no symbolic data: the solver contributes the enumeration of histories only (weakest fit, see DESIGN.md)")
 	reg("C20", d("verifC20a", "verifC20b"), nil,
 		d(cnCall, dnCall, "go.uber.org/dig.WithProviderCallback"),
 		d("callback-ok", "callback-error", "callback-panic", "callback-runtime", "callback-silent"),
